@@ -21,12 +21,13 @@ CHECK = dict(
     rule=("generated UB-free C functions (6-10 statements drawn from a catalogue of ~150 named integer "
           "operations: arithmetic, shifts/rotates, bswap/clz/ctz, guarded division, wide multiplies, "
           "bit-field extract/insert, selects, saturation, bounded loops, typed loads/stores, 64-bit "
-          "arithmetic on 32-bit targets) x 6 targets (ARM, Thumb-2, AArch64, MIPS32 BE/LE, PowerPC) x "
+          "arithmetic on 32-bit targets, 128-bit comparisons and carry chains on AArch64) x 6 targets (ARM, Thumb-2, AArch64, MIPS32 BE/LE, PowerPC) x "
           "{-O0,-O1,-O2,-Os} x boundary+random inputs; distinct = distinct (target, opt level, sorted "
           "operation names); non-trivial = the function ran to its return under miasm and was compared"),
     assumptions=["clang-14 and gcc generate correct code for defined C",
                  "the generated C has no undefined or implementation-divergent behaviour",
-                 "weaker than the property: only instructions clang emits and results that reach memory or the return value are observed"],
+                 "weaker than the property: only instructions clang emits and results that reach memory or the return value are observed",
+                 "a function with a branch whose delay slot miasm cannot decode is an unsupported input"],
     timeout={"quick": 1500, "thorough": 7000},
     exhaustive={"quick": False, "thorough": False},
     overlay="plain",
